@@ -575,3 +575,6 @@ PROPS["C02"]["level_text"] += (" Drop (E2, every path): the TTL sweeper is stopp
                                "final flush) BEFORE the counters are read into the metadata and the metadata is written; the device is shut down only after both.")
 PROPS["C02"]["functions"] += [PERSIST + "::drop"]
 PROPS["C02"]["outside"] = "crash images as executions, the worker's final-flush retry loop (write_buffer_worker), fsync placement inside DiskIO (C03/C09 io protocol obligations)"
+PROPS["C11"]["level_text"] += (" The sweeper's reservoir-sampling step (one closure call, arbitrary captured state, arbitrary random draw): a record without expiry is never sampled or counted; "
+                               "a candidate is appended only below sample_size, as (this key, this record); a replacement uses the drawn index only when it is below sample_size, which is then inside the vector.")
+PROPS["C11"]["functions"] += ["src/core/ttl_sweep.rs::sample_ttl_entries"]
